@@ -354,7 +354,7 @@ class TermAlg:
                 return r
         if e.id in ("float", "int", "str", "list", "len", "isinstance", "abs", "enumerate", "sorted", "dict", "type", "all", "any", "zip", "range"):
             return ("builtin", e.id)
-        if e.id in ("product", "reduce"):
+        if e.id in ("product", "reduce", "map"):
             return ("builtin", e.id)
         if fi is not None and e.id in fi.module.imports and not fi.module.imports[e.id].startswith("pacti"):
             return ("extmod", fi.module.imports[e.id])
@@ -471,7 +471,47 @@ class TermAlg:
         return "?"
 
     def x_Lambda(self, e, env):
-        return ("lambda", e)
+        return ("lambda", e, dict(env), self.fstack[-1] if self.fstack else None)
+
+    _OPERATOR = {"neg": (1, None), "add": (2, ast.Add), "sub": (2, ast.Sub), "mul": (2, ast.Mult), "truediv": (2, ast.Div)}
+
+    def apply(self, fn, pos, kw, node):
+        """Call a function value: a function / method of the package, a lambda (with its closure), operator.<op>."""
+        if isinstance(fn, FuncInfo):
+            return self.call(fn, pos, kw)
+        if isinstance(fn, tuple) and fn:
+            if fn[0] == "bound":
+                return self.call(fn[2], pos, kw) if fn[2].kind == "static" else self.call(fn[2], pos, kw, self_val=fn[1])
+            if fn[0] == "unbound":
+                return self.call(fn[2], pos, kw) if fn[2].kind == "static" else self.call(fn[2], pos[1:], kw, self_val=pos[0])
+            if fn[0] == "lambda" and len(fn) == 4:
+                lam, env0, frame = fn[1], dict(fn[2]), fn[3]
+                names = [a.arg for a in lam.args.args]
+                if len(pos) > len(names) or lam.args.vararg or lam.args.kwarg:
+                    raise AnalysisError("lambda called with %d arguments" % len(pos))
+                for n_, d_ in zip(reversed(names), reversed(lam.args.defaults)):
+                    env0[n_] = self.eval(d_, dict(fn[2]))
+                for n_, v_ in zip(names, pos):
+                    env0[n_] = v_
+                env0.update(kw)
+                if frame is not None:
+                    self.fstack.append(frame)
+                try:
+                    return self.eval(lam.body, env0)
+                finally:
+                    if frame is not None:
+                        self.fstack.pop()
+            if fn[0] == "extmod" and fn[1].startswith("operator.") and fn[1].split(".")[1] in self._OPERATOR:
+                ar, op = self._OPERATOR[fn[1].split(".")[1]]
+                if len(pos) == ar and not kw:
+                    if op is None:
+                        if isinstance(pos[0], Rat):
+                            return -pos[0]
+                        if isinstance(pos[0], LinV):
+                            return pos[0].scale(num(-1))
+                    else:
+                        return self.arith(op(), pos[0], pos[1], node)
+        raise AnalysisError("call of %s outside the kernel fragment in %s" % (norm(node), self.fstack[-1].key if self.fstack else "?"))
 
     def x_UnaryOp(self, e, env):
         v = self.eval(e.operand, env)
@@ -736,6 +776,8 @@ class TermAlg:
                 if fi.kind == "static":
                     return self.call(fi, pos, kw)
                 return self.call(fi, pos[1:], kw, self_val=pos[0])
+            if t == "lambda" or (t == "extmod" and f[1].startswith("operator.")):
+                return self.apply(f, pos, kw, e)
             if t == "extmod":
                 if f[1] in self.ext_stubs:
                     return self.ext_stubs[f[1]](self, pos, kw)
@@ -861,14 +903,14 @@ class TermAlg:
 
                     return ListV([TupV(list(t)) for t in _it.product(self.iterate(pos[0], e), repeat=r)])
                 if n == "reduce":
-                    fn, seq = pos[0], self.iterate(pos[1], e)
+                    fn, seq = pos[0], list(self.iterate(pos[1], e))
                     acc = pos[2] if len(pos) > 2 else seq.pop(0)
                     for x in seq:
-                        if isinstance(fn, tuple) and fn[0] == "unbound":
-                            acc = self.call(fn[2], [x], {}, self_val=acc)
-                        else:
-                            raise AnalysisError("reduce over %s" % (fn,))
+                        acc = self.apply(fn, [acc, x], {}, e)
                     return acc
+                if n == "map" and len(pos) >= 2:
+                    seqs = [self.iterate(x, e) for x in pos[1:]]
+                    return ListV([self.apply(pos[0], list(t), {}, e) for t in zip(*seqs)])
                 if n == "enumerate":
                     return ListV([TupV([num(i), x]) for i, x in enumerate(self.iterate(pos[0], e))])
                 if n == "str":
